@@ -36,8 +36,9 @@ template <class GC> static void run_smr_program(const Program& P, int nslots, bo
     if (nslots > 8 && !manual) for (int k = 0; k < nslots; ++k) ts.g[k] = new typename GC::Guard;   // "many guards" variants: guard k really is the k-th guard of the thread (extension blocks for DHP)
     for (auto& o : ops) {
       if (o.name == "prot") { size_t k = (size_t)o.arg(0); if (!ts.attached) continue; if (!ts.g[k]) ts.g[k] = new typename GC::Guard;
-        xev("pbeg"); Obj* p = ts.g[k]->protect(W->link[o.arg(1) % NLINK]); xev("pend");
-        if (p) xev("gset", (long)k, id_of(p)); else if (ts.held[k]) xev("gclr", (long)k); ts.held[k] = p; }
+        // re-protecting an occupied slot: the old pointer is overwritten somewhere inside protect(); it stops counting as guarded when the window opens
+        xev("pbeg"); if (ts.held[k]) { xev("gclr", (long)k); ts.held[k] = nullptr; } Obj* p = ts.g[k]->protect(W->link[o.arg(1) % NLINK]); xev("pend");
+        if (p) xev("gset", (long)k, id_of(p)); ts.held[k] = p; }
       else if (o.name == "deref") { size_t k = (size_t)o.arg(0); if (ts.held[k]) { Obj* p = ts.held[k]; if (vs::mem_state(p) == 2) vs::report_uad(p, 95); (void)p->payload; xev("deref", id_of(p)); } }
       else if (o.name == "rel") { size_t k = (size_t)o.arg(0); if (ts.g[k]) { xev("pbeg"); xev("gclr", (long)k); ts.g[k]->clear(); ts.held[k] = nullptr; xev("pend"); } }
       else if (o.name == "swap") { if (!ts.attached) continue; Obj* n = W->make(); Obj* old = W->link[o.arg(0) % NLINK].exchange(n); retire_obj(old); }
